@@ -29,7 +29,7 @@ LEAFLIKE = ('NoCmp', 'NoHash', 'NoDbg', 'NoZ', 'NoEq')
 
 def field_kind(ty, tparams):
     ty = ty.strip()
-    if ty in tparams or ty == 'Leaf' or ty in LEAFLIKE:
+    if ty in tparams or ty == 'Leaf' or ty in LEAFLIKE or ty in ('Wr<u8>', 'Wr<NoEq>'):   # Wr<..>: negative probes only
         return 'leaf'
     if ty == 'u8':
         return 'u8'
@@ -313,6 +313,9 @@ def rust_probe(idx, item, cfg, qs, hostile=False):
             lines.append('{ let a: %s = %s; take_log(); let nd = ::core::mem::needs_drop::<%s>(); ::core::mem::drop(a); let l = take_log(); '
                          'emit(format!("%s|{}|{}", nd, l)); }' % (ty, val_expr(item, a[0], a[1], targs), ty, tag))
     body = '\n        '.join(lines)
+    if getattr(item, 'expect_error', None):
+        return ('pub mod m%d {\n    use super::prelude::*;\n    use derive_where::derive_where;\n%s    %s\n    pub fn run() {}\n}\n'
+                % (idx, HOSTILE if hostile else '', item.rust()))
     return ('pub mod m%d {\n    use super::prelude::*;\n    use derive_where::derive_where;\n%s    %s\n    %s\n'
             '    pub fn run() {\n        emit(format!("BEGIN|%d"));\n        %s\n    }\n}\n'
             % (idx, HOSTILE if hostile else '', item.rust(), view_fn(item, targs), idx, body))
